@@ -272,6 +272,8 @@ pub struct Model {
     pub node_vals: BTreeMap<u32, BTreeMap<String, Val>>,
     /// number of committed transactions folded in
     pub commits: u64,
+    /// largest external id ever handed out (ids of deleted nodes stay reserved)
+    pub max_ext: u64,
 }
 
 impl Model {
@@ -280,6 +282,7 @@ impl Model {
             TOp::CreateNode { ext, labels } => {
                 let id = self.next_iid;
                 self.next_iid += 1;
+                self.max_ext = self.max_ext.max(*ext);
                 self.g.nodes.insert(
                     id,
                     NodeState {
